@@ -149,6 +149,18 @@ func runC01(r *ev.Run) {
 	u1 := positions.Load()
 	r.Set("u1_positions", u1)
 	r.Set("u1_complete", complete)
+	if r.Thorough() {
+		// constrained 5-man classes: the lone side's king confined to the corner region
+		five := []string{"KRPkp", "KBNkp", "KQPkr", "KNPkb"}
+		for _, name := range five {
+			forClasses(r, []universe.Class{universe.ParseClass(name)}, universe.Opts{NoRights: true, BlackKingIn: []int{56, 57, 48, 63, 62, 55}}, newW, func(w *c01Worker, p *refchess.Pos) {
+				b := w.ld.Load(p)
+				check(w.ms, b, p, func() c01Case { return c01Case{FEN: p.FEN(), How: "fen"} })
+				stat(p)
+			})
+		}
+		r.Set("five_man_constrained", five)
+	}
 
 	// --- U2: move trees, as played and as reloaded -------------------------
 	roots := universe.AllRoots()
